@@ -256,7 +256,7 @@ theorem reject_bad_config_exit3 (spec : List Opt) (ini : List (Str × CfgVal)) (
   rw [he]; rfl
 
 /-- **through DoitMain, the guard**: `process_args` hands the words to the parsers unchanged exactly when none of them
-    is empty or a `name=value` word; under that guard `roundtrip_total` / `precedence` / `reject_*` speak about what
+    is a `name=value` word; under that guard `roundtrip_total` / `precedence` / `reject_*` speak about what
     `DoitMain.run` parses -/
 theorem main_words_unchanged (argv : List Str) (h : NoVarWords argv = true) : stripVars argv = .ok argv :=
   stripVars_id argv h
@@ -271,7 +271,11 @@ theorem var_word_steals_option_value :
     observe [['l']] (pipeline demoSpec [] [] (fun _ => none) [['-','l']]) = none ∧
     (stripVars [['-','l'], ['a','=','b'], ['x']]).toOption = some [['-','l'], ['x']] ∧
     observe [['l']] (pipeline demoSpec [] [] (fun _ => none) [['-','l'], ['x']]) = some ([some (.l [['d'], ['x']])], []) ∧
-    (stripVars [['-','l'], []]).toBool = false := by decide
+    (stripVars [['-','l'], []]).toOption = some [['-','l'], []] := by decide
+
+/-- F-C16d (fixed in /repo, 0ab6253): an empty word was `arg[0]` on `''` in `process_args`: IndexError traceback -/
+theorem pinned_empty_word_crashes :
+    (stripVarsP true [['-','l'], []]).toBool = false ∧ (stripVarsP false [['-','l'], []]).toBool = true := by decide
 
 /-- F-C16b (fixed in /repo, e98fc2c): with the command constructed outside the `try`, `num = abc` in the command's
     config section ended as an uncaught exception (exit status 1), not as exit code 3 -/
